@@ -73,6 +73,8 @@ type NodeOpts struct {
 	DAStartHeight uint64
 	RootDir       string
 	GenesisTime   time.Time
+	// DBPath: the configured db_path (relative to RootDir); "" leaves the default of the repository's config
+	DBPath string
 }
 
 // Node bundles a real Manager with the doubles it runs against.
@@ -124,6 +126,9 @@ func NewNode(ctx context.Context, o NodeOpts, k Keys, dsp *MemDS, exec coreexecu
 	}
 	cfg := config.DefaultConfig
 	cfg.RootDir = o.RootDir
+	if o.DBPath != "" {
+		cfg.DBPath = o.DBPath
+	}
 	cfg.Node.Aggregator = o.Aggregator
 	cfg.Node.LazyMode = o.Lazy
 	cfg.Node.MaxPendingHeadersAndData = o.MaxPending
